@@ -275,7 +275,7 @@ fn history(cfg: &Cfg, rep: &mut Report, h: u64, steps: usize) {
 }
 
 pub fn run(cfg: &Cfg, rep: &mut Report) {
-    rep.rule = "Seeded histories of schedule/execute (execute_operation) / mark (set_execute_operation, the entry point self-administered controllers use)/cancel/set_min_delay/ledger moves over 7 operation templates with predecessor links (to done, pending, cancelled, never-scheduled, failing-target ids), delays on {0,min-1,min,min+1,1e6,u32::MAX,MAX-cur,MAX-cur+1}, ledger moved to {ready-1,ready,ready+1}. Distinct case = (op, position of cur relative to ready ledger / state, predecessor state, target fn, outcome).".into();
+    rep.rule = "Seeded histories of schedule/execute (execute_operation) / mark (set_execute_operation, the entry point self-administered controllers use)/cancel/set_min_delay/ledger moves over 7 operation templates with predecessor links (to done, pending, cancelled, never-scheduled, failing-target ids), delays on {0,min-1,min,min+1,1e6,u32::MAX,MAX-cur,MAX-cur+1}, ledger moved to {ready-1,ready,ready+1}; plus the timelock-controller example's self-administration path (an administrative call consumes the operation): C09's sweep of operation state x payload shape x executor variant and its predecessor cases, reported under C08/controller/. Distinct case = (op, position of cur relative to ready ledger / state, predecessor state, target fn, outcome).".into();
     let nh = cfg.pick(200u64, 8000);
     let steps = cfg.pick(120usize, 250);
     for k in 0..nh {
@@ -283,6 +283,13 @@ pub fn run(cfg: &Cfg, rep: &mut Report) {
             history(cfg, rep, k, steps);
         }
     }
+    // the same rule when execution means "an administrative call of the controller consumed the
+    // operation": the timelock-controller example's own sweep (C09's cases, re-labelled) - operation
+    // state x payload shape x executor variant, and operations scheduled with a predecessor
+    rep.rename_prefix = Some(("C09/".into(), "C08/controller/".into()));
+    crate::props::c09::systematic(cfg, rep);
+    crate::props::c09::predecessor_cases(cfg, rep);
+    rep.rename_prefix = None;
     rep.floor_on("executes", 50, &["execute:ok"]);
     rep.floor_on("ledger_moves", 50, &["ledger_moves"]);
 }
